@@ -100,12 +100,12 @@ Qed.
    flags do not excuse is Running in it, its status is what finalStates computed, and it is terminal *)
 Lemma release_facts d sh r fin r' :
   r_ph r = RRun -> r_release d sh r fin = Some r' ->
-  all_flushed sh r = true /\ quiet d sh (r_I r) (r_mem r) = true
+  all_flushed sh r = true /\ quiet d sh (r_I r) (mget r) = true
   /\ image_agrees (all_objs sh) (s_img (r_s r)) (s_reason (r_s r)) fin = true
   /\ is_terminal (ist (s_img (r_s r)) OPlan) = true.
 Proof.
   unfold r_release. intros -> H.
-  destruct (all_flushed sh r) eqn:E1; [|discriminate]. destruct (quiet d sh (r_I r) (r_mem r)) eqn:E2; [|discriminate].
+  destruct (all_flushed sh r) eqn:E1; [|discriminate]. destruct (quiet d sh (r_I r) (mget r)) eqn:E2; [|discriminate].
   simpl in H. unfold h_release in H.
   destruct (pphase_eqb (s_ph (r_s r)) PEnd && is_terminal (ist (s_img (r_s r)) OPlan)
             && image_agrees (all_objs sh) (s_img (r_s r)) (s_reason (r_s r)) fin) eqn:E3; [|discriminate].
@@ -137,7 +137,7 @@ Lemma live_reps sh r r1 : live r -> reps sh r = Some r1 -> live r1.
 Proof.
   unfold live, reps. intros Hl H. destruct (r_ph r) as [| [|[b qs] todo] |] eqn:E; try discriminate; try contradiction.
   - destruct (forallb s_done (b_seqs (s_b (r_s r)))); [|discriminate]. injection H as <-. apply start_recover_live.
-  - destruct (rp_eps sh (r_mem r) (r_s r)); [|discriminate]. injection H as <-. simpl. rewrite E. discriminate.
+  - destruct (rp_eps sh (mget r) (r_s r)); [|discriminate]. injection H as <-. simpl. rewrite E. discriminate.
 Qed.
 
 Lemma r_launch_ph r b q r1 : r_launch r b q = Some r1 -> r_ph r1 = r_ph r.
@@ -193,7 +193,7 @@ Proof.
   { intros fin Hx. unfold r_release in Hx. destruct (r_ph r) eqn:Ep; try discriminate.
     - destruct (negb (released (r_s r)) && image_agrees (all_objs sh) (s_img (r_s r)) (s_reason (r_s r)) fin); [|discriminate].
       injection Hx as <-. simpl. auto.
-    - destruct (all_flushed sh r && quiet d sh (r_I r) (r_mem r)); [|discriminate]. apply Hw in Hx. congruence. }
+    - destruct (all_flushed sh r && quiet d sh (r_I r) (mget r)); [|discriminate]. apply Hw in Hx. congruence. }
   destruct (r_ph r) eqn:Ep; destruct e; try discriminate; eauto using r_write_ph.
   all: try (rewrite <- Ep; eauto using r_write_ph).
 Qed.
